@@ -20,7 +20,7 @@ ROOT_FILES = ["root/rig_test.go", "root/rig_c04_test.go", "root/c17_cluster_test
 SPEC = {
     "go": [dict(RAFT, files=FILES, test="TestVerifC17", n_quick=60, n_thorough=1200, shards_quick=4, shards_thorough=12,
                 timeout_quick=600, timeout_thorough=3000),
-           dict(ROOT, files=ROOT_FILES, test="TestVerifC17Cluster", n_quick=300, n_thorough=6000, shards_quick=6, shards_thorough=12,
+           dict(ROOT, files=ROOT_FILES, test="TestVerifC17Cluster", n_quick=300, n_thorough=4000, shards_quick=6, shards_thorough=12,
                 timeout_quick=600, timeout_thorough=3000)],
     "rule": "generated scripts on rig R1 (real hashicorp/raft nodes in memory, real FSM and *Consensus): 1..3 initial members of 6 "
             "peer identities; AddPeer/RmPeer through the real Consensus.AddPeer/RmPeer at leader and followers (of absent, present, "
